@@ -191,7 +191,7 @@ def mutate(data, mut):
             return vber.enc_community_message(f["v"], b"public", pdu)
         usm = vber.enc_usm_params(b"\x80\x00\x1f\x88\x80verif-agent", 3, 1000, b"", b"", b"")
         return vber.enc_v3_message(0x6553F100, 65507, 0, 3, usm, vber.enc_scoped_pdu(b"\x80\x00\x1f\x88\x80verif-agent", b"", pdu))
-    if k in ("overlap", "deep"):
+    if k in ("overlap", "deep", "overlap_at"):
         return None      # needs the base: built by overlap_mutant() / deep_mutant()
     if k == "raw":
         return bytes.fromhex(mut[1])
@@ -210,6 +210,60 @@ def overlap_chain(k, tail=b"\x05\x00"):
             break
         body = b"\x30\x02\x30" + bytes([len(body)]) + body
     return body
+
+
+def _tree_of(data):
+    """definite-length TLV tree of a well-formed datagram: [tag, children] for constructed TLVs (and for an OCTET STRING
+    that holds exactly one SEQUENCE, like msgSecurityParameters), [tag, bytes] for leaves"""
+    out = []
+    pos = 0
+    while pos < len(data):
+        tag, cs, ce = vber.read_tlv(data, pos)
+        content = data[cs:ce]
+        kids = None
+        if tag & 0x20:
+            kids = _tree_of(content)
+        elif tag == vber.T_OCTETS and len(content) >= 2 and content[0] == vber.T_SEQ:
+            try:
+                t2, cs2, ce2 = vber.read_tlv(content, 0)
+                if ce2 == len(content):
+                    kids = _tree_of(content)
+            except vber.BerError:
+                kids = None
+        out.append([tag, kids if kids is not None else content])
+        pos = ce
+    return out
+
+
+def _leaves(tree, acc=None):
+    acc = [] if acc is None else acc
+    for node in tree:
+        if isinstance(node[1], list):
+            _leaves(node[1], acc)
+        else:
+            acc.append(node)
+    return acc
+
+
+def _ser(tree):
+    return b"".join(vber.tlv(tag, _ser(v) if isinstance(v, list) else v) for tag, v in tree)
+
+
+def replace_leaf(data, index, new_tlv):
+    """the datagram with its index-th primitive TLV (depth-first) replaced by `new_tlv`; enclosing lengths are adjusted"""
+    try:
+        tree = _tree_of(data)
+    except vber.BerError:
+        return None
+    leaves = _leaves(tree)
+    if index >= len(leaves):
+        return None
+    leaves[index][0] = "RAW"
+    leaves[index][1] = new_tlv
+
+    def ser(tr):
+        return b"".join(v if tag == "RAW" else vber.tlv(tag, ser(v) if isinstance(v, list) else v) for tag, v in tr)
+    return ser(tree)
 
 
 def nest(depth, tag, inner=b"\x05\x00"):
@@ -580,6 +634,25 @@ class _Overlaps:
                         yield dict(base=list(base), mut=["overlap", k, where], debug=debug)
 
 
+class _OverlapsAt:
+    """the chain in place of EVERY field of the message, one at a time (also of authenticated messages: header and security
+    parameters are read before anything is verified)"""
+
+    def __init__(self, tier):
+        self.tier = tier
+
+    def __iter__(self):
+        bases = [b for b in BASES(self.tier) if b[0] not in ("udp", "inner")]
+        if self.tier == "quick":
+            bases = [b for b in bases if b in (("response", "v2c", "multiget"), ("disco", "v3a", "get"), ("trap", "v2c", "trap"))]
+        for base in bases:
+            for i in range(40):
+                if replace_leaf(base_bytes(tuple(base)), i, b"\x05\x00") is None:
+                    break
+                for k in ((18,) if self.tier == "quick" else (18, 26)):
+                    yield dict(base=list(base), mut=["overlap_at", i, k])
+
+
 class _Shard:
     def __init__(self, it, k, m):
         self.a = (it, k, m)
@@ -632,7 +705,10 @@ def run_case(case, use_guard=True) -> Result:
     vsandbox.limit_memory(3 << 30)
     base = tuple(case["base"])
     data = base_bytes(base)
-    if case["mut"][0] == "overlap":
+    if case["mut"][0] == "overlap_at":
+        # an overlap chain in place of the i-th field of the message (version, msgID, flags, engine id, user name, ...)
+        mutant = replace_leaf(data, case["mut"][1], vber.tlv(vber.T_SEQ, overlap_chain(case["mut"][2])))
+    elif case["mut"][0] == "overlap":
         mutant = overlap_mutant(base, data, case["mut"][1], case["mut"][2])
     elif case["mut"][0] == "deep":
         mutant = deep_mutant(base, data, case["mut"][1], case["mut"][2], case["mut"][3])
@@ -715,8 +791,8 @@ def _has_overlap(data, start=0, end=None, depth=0):
             cs, n = pos + 2 + k, int.from_bytes(data[pos + 2:pos + 2 + k], "big")
         if cs + n > end:
             return depth > 0 and cs + n <= len(data)
-        if tag & 0x20 and _has_overlap(data, cs, cs + n, depth + 1):
-            return True
+        if (tag & 0x20 or (tag == 0x04 and n >= 2 and data[cs] == 0x30)) and _has_overlap(data, cs, cs + n, depth + 1):
+            return True      # (msgSecurityParameters is an OCTET STRING that holds a SEQUENCE)
         pos = cs + n
     return False
 
@@ -724,8 +800,9 @@ def _has_overlap(data, start=0, end=None, depth=0):
 def _known_for(base, mutant):
     if _is_f20(mutant):
         return "x690_indefinite_no_terminator"
-    if base[0] == "pyresponse" and _has_overlap(mutant):
-        # (only on the wrapper's path: the raw client hands a nested value to the caller without walking through it)
+    if _has_overlap(mutant):
+        # whichever field of the message holds such a structure: puresnmp converts header fields, security parameters,
+        # communities ... of a received message before it can know anything about the sender
         return "x690_overlapping_children"
     return None
 
@@ -1059,6 +1136,8 @@ def units(tier, seed):
     us = [Unit("history", history_unit, label="history", n=150 if tier == "quick" else 600),
           Unit("stubborn", enumeration_unit, cases=_Stubborn(), label="stubborn", exhaustive=False),
           Unit("overlaps", enumeration_unit, cases=_Overlaps(tier), label="overlaps", exhaustive=False, stop_after=40),
+          ] + [Unit("overlaps-at-%d" % k, enumeration_unit, cases=_Shard(_OverlapsAt(tier), k, 6), label="overlaps-at-%d" % k,
+                    exhaustive=False, stop_after=40) for k in range(6)] + [
           Unit("deep-0", enumeration_unit, cases=_Shard(_Deep(tier), 0, 2), label="deep-0", exhaustive=False, stop_after=40),
           Unit("deep-1", enumeration_unit, cases=_Shard(_Deep(tier), 1, 2), label="deep-1", exhaustive=False, stop_after=40)]
     if tier == "thorough":
